@@ -233,6 +233,9 @@ def _mlabel(m):
 def check_solve1d(case):
     md, smd, s, bcL, bcR, model, mesh, xf, n, prim, disc, f = _build1d(case)
     solver = cases.build_integrator(case["integ"], mesh, disc)
+    Pp = sim.Problem()
+    Pp.smd, Pp.prim, Pp.model, Pp.mesh, Pp.disc, Pp.field = smd, prim, model, mesh, disc, f
+    sim.preuse_solver(Pp, solver, case, case["cfl"], variant=(sim.solver_history(case) if sim.solver_history(case) != 2 else 3))     # (a colder gas is not compatible with the inlet parameters)
     implicit = cases.is_implicit(case["integ"])
     keep = [d.copy() for d in f.data]
     directives = {"dtlocal": True} if case["dtlocal"] else {}
